@@ -146,6 +146,9 @@ func checkC09(c c09Case) error {
 				return nil
 			}
 			e2, derr, eerr := reencode(c.Kind, e1, false)
+			if derr != nil && hasIntBeyondInt64Deep(e1) {
+				return finding("canonical-form-rejected/bignum-beyond-int64", "step %d: a bignum (tag 2/3) beyond int64 in a header was re-emitted as a plain integer, which the decoder refuses: %v\n%x", i, derr, e1)
+			}
 			if derr != nil || eerr != nil {
 				return finding("canonical-form-rejected", "step %d: the form obtained after discarding raw bytes cannot be decoded / re-encoded (dec=%v enc=%v)\n%x", i, derr, eerr, e1)
 			}
@@ -193,6 +196,22 @@ func checkC09(c c09Case) error {
 		stats.Sample("c09/"+c.Kind.String(), map[string]any{"kind": c.Kind.String(), "wire": c.Wire, "ops": c.Ops})
 	}
 	return nil
+}
+
+// hasIntBeyondInt64Deep looks for an integer outside int64 in the item and
+// inside its byte strings that wrap CBOR (protected headers).
+func hasIntBeyondInt64Deep(b []byte) bool {
+	root, err := rc.MParse(b, true)
+	if err != nil {
+		return false
+	}
+	for _, s := range rc.MSlots(&root) {
+		x := s.Get()
+		if x != nil && x.Verb == nil && x.Major <= 1 && x.Arg > 1<<63-1 {
+			return true
+		}
+	}
+	return false
 }
 
 func mustParse(b []byte) *rc.Node {
